@@ -623,3 +623,52 @@ rg_harness!(rg_toggle_free, rg_toggle_free_o0: 0, rg_toggle_free_o2: 2, rg_toggl
 pub(crate) fn row_ptr(b: &Bitfield) -> *const Atom<u64> {
     &b.data[0] as *const Atom<u64>
 }
+
+// Rely/guarantee contract of `set_first_zeros` as a stub (checked by rg_set_first_zeros_o*): under any
+// interference it either claims exactly one aligned block that this thread did not own (counter units
+// are converted into owned bits) or leaves its ownership unchanged. The rows it finds are whatever the
+// environment allows (every value that keeps this thread's bits).
+impl Bitfield {
+    pub(crate) fn set_first_zeros_rg_contract(&self, _start_row: RowId, order: usize) -> Result<FrameId> {
+        kani::assert(order <= Self::ORDER, "set_first_zeros precondition: order <= 9");
+        let base = unsafe { env::BASE };
+        let a = &self.data[0] as *const Atom<u64> as usize;
+        kani::assert(a >= base && (a - base) % 64 == 0 && (a - base) / 64 < env::MAXH, "rely/guarantee stub: bitfield inside the registered region");
+        let h = (a - base) / 64;
+        // environment: arbitrary rows that keep this thread's bits
+        let mut cur = any_rows();
+        for_rows!(r, {
+            let own = unsafe { env::OWN[h * ROWS + r] };
+            kani::assume(cur[r] & own == own);
+        });
+        let n = 1usize << order;
+        if kani::any() {
+            let p: usize = kani::any();
+            kani::assume(p < Self::LEN && p % n == 0);
+            let b = blk(p, order);
+            for_rows!(r, {
+                let m = b.mask_in_row(r);
+                // claimed from free: none of the block's bits was set (so none was owned)
+                kani::assume(cur[r] & m == 0);
+                cur[r] |= m;
+                unsafe { env::OWN[h * ROWS + r] |= m };
+            });
+            unsafe {
+                if env::UNITS_ON {
+                    kani::assert(env::RES[h] >= n, "C01/C05 guarantee: bits are claimed only against counter units reserved before (counter first, then bits)");
+                    env::RES[h] -= n;
+                    env::OWNED_BITS[h] += n;
+                }
+            }
+            for_rows!(r, {
+                self.data[r].store(cur[r]);
+            });
+            Ok(FrameId(p))
+        } else {
+            for_rows!(r, {
+                self.data[r].store(cur[r]);
+            });
+            Err(Error::Memory)
+        }
+    }
+}
